@@ -519,19 +519,19 @@ CHECKS["C07"] = {
         {"name": "clock", "exe": "c07_repro", "sources": ["c07_repro.cpp"], "sub": "clock", "shards": 8, "pin": True},
         {"name": "threads", "exe": "c07_repro", "sources": ["c07_repro.cpp"], "sub": "threads", "shards": 32, "pin": True},
     ],
-    "rule": "9 self-contained programs x 2 inputs (node State accumulator + dense record; a node counting in GlobalState; map_ with stateful "
+    "rule": "11 self-contained programs x 2 inputs (two programs that differ only in a parameter of an interned type - a duration window with the same range and different warm-up; node State accumulator + dense record; a node counting in GlobalState; map_ with stateful "
             "children; switch_; reduce_; feedback loop; nested graph with a clock-reading node; replay -> record; the GlobalState program wired and "
             "run under a GlobalContext with a seeded caller-owned state). Scripts are scalars and observations are appended to the run's own global "
             "state, so the harness has no global through which runs could couple. The trace of a run = its log + counters + recorded/replayed "
             "buffers + (context program) the caller-owned state. Reference = the same program run alone in a FRESH process (self-exec). "
-            "hist: every sequence of <= L operations over a 50-letter alphabet {R fresh build+run, B run on the builder cached in this history "
+            "hist: every sequence of <= L operations over a 62-letter alphabet {R fresh build+run, B run on the builder cached in this history "
             "(reuse count grows), W wire+finish only, X two executors made from one builder and both alive, C context program}; every run must "
             "reproduce its reference byte for byte and a builder's seed state must be unchanged by runs. clock: each program under the controlled "
             "scheduler where the wall clock may jump 7 s ahead before any clock read. threads: each pair of programs wired, built and run on two "
             "controlled threads, every interleaving at mutex/condvar operations (type registries, plan factories, intern tables). "
             "non-trivial = history of length >= 2 / schedule differing from the default.",
-    "bounds": {"quick": "histories: L<=3 over 50 letters; clock: <= 3 jumps; threads: 1 preemption for all 45 unordered pairs, 2 for three pairs (GlobalState/GlobalContext, map_/switch_, record/replay)",
-               "thorough": "histories: L<=3 over 58 letters, L=4 over 26 letters; <= 5 jumps; 2 preemptions for all 81 ordered pairs"},
+    "bounds": {"quick": "histories: L<=3 over 62 letters; clock: <= 3 jumps; threads: 1 preemption for all 66 unordered pairs, 2 for three pairs (GlobalState/GlobalContext, map_/switch_, record/replay)",
+               "thorough": "histories: L<=3 over 72 letters, L=4 over 32 letters; <= 5 jumps; 2 preemptions for all 121 ordered pairs"},
     "min_counters": {"quick": {"nontrivial": 100000, "threads.executions": 5000, "clock.executions": 500}},
     "assumptions": COMMON_ASSUMPTIONS + [
         "Unsynchronised data races are outside a scheduler that switches at synchronisation operations (no ThreadSanitizer build of the tree in this image's budget).",
